@@ -175,6 +175,17 @@ func runLS2PL(c *core.Ctx) {
 			u, ok := an.Unparen(ex).(*ast.UnaryExpr)
 			return ok && u.Op == token.NOT && an.SelectedField(info, u.X) == hasLock
 		})
+		// ... or a test of it through a predicate helper: the timed acquisition is guarded by "hasLock is false"
+		if len(hasTests) == 0 {
+			for _, a := range g.FindAtoms(func(a ast.Node) bool {
+				call, ok := a.(*ast.CallExpr)
+				return ok && an.IsMethodNamed(an.CalleeFunc(info, call), an.PkgResources, "LocalSharedManager", "acquireWithTimeout")
+			}) {
+				if guardedWhereIn(e, info, g, a, func(ex ast.Expr, val bool) bool { return an.SelectedField(fieldInfoOf(e, ex, info), ex) == hasLock && !val }) {
+					hasTests = append(hasTests, a)
+				}
+			}
+		}
 		c.Check(len(hasTests) > 0, "tryEnsureLock:reentrant", fn.Pos(), "acquisition is skipped only when hasLock is already true", "tryEnsureLock does not test hasLock: a second access in the same section would block on its own lock until the timeout")
 	}
 	// (c) release
@@ -375,6 +386,17 @@ func runLSTimed(c *core.Ctx) {
 			other = true
 		case *ast.ExprStmt:
 			if u, ok := an.Unparen(comm.X).(*ast.UnaryExpr); ok && u.Op == token.ARROW {
+				// <-timer.C with timer := time.NewTimer(sv.timeout)
+				if sel, ok := an.Unparen(u.X).(*ast.SelectorExpr); ok && sel.Sel.Name == "C" {
+					if call, ok := an.Unparen(an.ResolveLocal(info, fn.Body(), sel.X)).(*ast.CallExpr); ok {
+						if f := an.CalleeFunc(info, call); f != nil && f.Pkg() != nil && f.Pkg().Path() == "time" && f.Name() == "NewTimer" &&
+							len(call.Args) == 1 && an.SelectedField(info, call.Args[0]) == timeout {
+							all, any := returnsIn(cc.Body, false)
+							timerArm = all && any
+							continue
+						}
+					}
+				}
 				if call, ok := an.Unparen(u.X).(*ast.CallExpr); ok {
 					if f := an.CalleeFunc(info, call); f != nil && f.Pkg() != nil && f.Pkg().Path() == "time" && f.Name() == "After" &&
 						len(call.Args) == 1 && an.SelectedField(info, call.Args[0]) == timeout {
@@ -553,3 +575,7 @@ func runLSOwner(c *core.Ctx) {
 		}
 	}
 }
+
+// fieldInfoOf returns the types.Info that knows expression ex (the caller's, or — for expressions inside an inlined
+// helper — the one of the package declaring it; helpers inlined here live in the same package).
+func fieldInfoOf(e *Env, ex ast.Expr, info *types.Info) *types.Info { return info }
